@@ -107,6 +107,7 @@ def run(ctx):
                     chk.instance("C18/R3", "guard stored into a place that outlives the future", b.name, loc_of(s.get("sp")), holds=False,
                                  key="C18/R3 Session::recv guard-escapes")
     r4_table_untouched_by_drop(chk, fx)
+    r5_survivors_find_parked_replies(chk, fx)
 
 
 REMOVERS = ("HashMap::<K, V, S, A>::remove", "HashMap::<K, V, S, A>::remove_entry", "HashMap::<K, V, S, A>::clear", "HashMap::<K, V, S, A>::retain",
@@ -146,3 +147,13 @@ def r4_table_untouched_by_drop(chk, fx):
         chk.instance("C18/R4", "Drop impl of %s does not run when a reply future is dropped" % T.short(base, 1), it["qdef"], loc_of(it.get("sp")),
                      holds=not users, key="C18/R4 drop-impl %s held by reply future" % T.short(base, 1),
                      detail=("a value of this type is a local of %s: its Drop code runs when the future is abandoned" % [T.short(T.strip_generics(u), 2) for u in users][:2]) if users else None)
+
+
+# ---------------------------------------------------------------------------------------------
+def r5_survivors_find_parked_replies(chk, fx):
+    """When the future that was reading is dropped, the waiters queued behind it take over one after the other; replies meant for the
+    later ones are parked by the earlier ones while they still wait for the lock.  A survivor completes only if it looks at its own
+    slot *after* it got the receive lock and before it reads (C05/R4, R5: check and read under one guard).  Shared rule, recorded here."""
+    from .c15 import _Rename
+    from . import c05
+    c05.r4_r5_locks(_Rename(chk, "C05/R", "C18/R5:C05/R"), fx)
